@@ -32,6 +32,7 @@ func init() {
 			{ID: "C05.10", Desc: "a hit has exactly the stored body: an entry whose body ends early is not served", Run: func(c *Ctx) { ruleStoredBodyComplete(c, "C05.10") }, MinSites: 1},
 			{ID: "C05.11", Desc: "trailer fields that appear while the body is read reach the stored entry", Run: func(c *Ctx) { ruleTrailersAfterRead(c, "C05.11") }, MinSites: 1},
 			{ID: "C05.12", Desc: "the response object given to the storer is the one that is returned (its body is replaced by a re-readable copy there)", Run: func(c *Ctx) { ruleStoreServedObject(c, "C05.12") }, MinSites: 1},
+			{ID: "C05.13", Desc: "the re-readable body reaches the live response after the last serialisation pass, on every way out", Run: func(c *Ctx) { ruleBodyHandedBackLast(c, "C05.13") }, MinSites: 1},
 		},
 	})
 }
